@@ -261,6 +261,7 @@ fn c09() {
         jobs.push(Job { harness: "c09", cfg: json!({"cap": 2, "p": 2, "n": 3, "early_permits": 1, "pb": 1, "max_secs": 300}) });
         jobs.push(Job { harness: "c09", cfg: json!({"cap": 1, "p": 3, "n": 1, "early_permits": 0, "pb": 2, "max_secs": 300}) });
     }
+    jobs.push(Job { harness: "c09_last_handle_in_flush", cfg: json!({"pb": pb}) });
     finish(rep, jobs, "Capacities 1..3, one or two producers appending more entries than fit, a writer whose stream blocks on a gate with 0/1/2 early permits (0 = completely stalled): every append returns in every schedule (a blocking append is a loom deadlock), survivors are in append order, an entry is lost only if at least `capacity` newer entries exist, the newest `capacity` entries of a single producer always survive, and the metrique_queue_overflows counter equals the number of discarded entries.");
 }
 
